@@ -1,8 +1,11 @@
 //go:build verif
 
 // Contracts for the deductive checks under /verif (comment-only; compiled only with -tags verif).
+// Spec functions (rlp_*) are defined in /verif/specs/rlp.smt2 from Yellow Paper appendix B.
 
 package rlp
+
+// ---- raw.go: header decoding ------------------------------------------------------------
 
 //@ func readSize
 //@   requires 1 <= slen && slen <= 8
@@ -18,4 +21,67 @@ package rlp
 //@   ensures[C11] err == nil ==> tagsize <= uint64(len(buf)) && contentsize <= uint64(len(buf)) - tagsize
 //@   ensures[C11] err != nil ==> k == 0 && tagsize == 0 && contentsize == 0
 //@   assigns nothing
+//@   nopanic[C11]
+
+//@ func Split
+//@   ensures[C11] err == nil <==> rlp_ok(arr(b), off(b), len(b))
+//@   ensures[C11] err == nil ==> uint64(k) == rlp_kind(arr(b), off(b), len(b)) && uint64(len(content)) == rlp_size(arr(b), off(b), len(b))
+//@   ensures[C11] err == nil ==> ref(content) == ref(b) && off(content) == off(b) + rlp_tag(arr(b), off(b), len(b))
+//@   ensures[C11] err == nil ==> ref(rest) == ref(b) && off(rest) == off(content) + uint64(len(content))
+//@   ensures[C11] err == nil ==> uint64(len(rest)) + uint64(len(content)) + rlp_tag(arr(b), off(b), len(b)) == uint64(len(b))
+//@   ensures[C11] err != nil ==> ref(rest) == ref(b) && off(rest) == off(b) && len(rest) == len(b) && len(content) == 0
+//@   assigns nothing
+//@   nopanic[C11]
+
+//@ func SplitString
+//@   ensures[C11] err == nil <==> rlp_ok(arr(b), off(b), len(b)) && rlp_kind(arr(b), off(b), len(b)) != 2
+//@   ensures[C11] err == nil ==> uint64(len(content)) == rlp_size(arr(b), off(b), len(b)) && ref(content) == ref(b) && off(content) == off(b) + rlp_tag(arr(b), off(b), len(b))
+//@   ensures[C11] err != nil ==> ref(rest) == ref(b) && off(rest) == off(b) && len(rest) == len(b) && len(content) == 0
+//@   assigns nothing
+//@   nopanic[C11]
+
+//@ func SplitList
+//@   ensures[C11] err == nil <==> rlp_ok(arr(b), off(b), len(b)) && rlp_kind(arr(b), off(b), len(b)) == 2
+//@   ensures[C11] err == nil ==> uint64(len(content)) == rlp_size(arr(b), off(b), len(b)) && ref(content) == ref(b) && off(content) == off(b) + rlp_tag(arr(b), off(b), len(b))
+//@   ensures[C11] err != nil ==> ref(rest) == ref(b) && off(rest) == off(b) && len(rest) == len(b) && len(content) == 0
+//@   assigns nothing
+//@   nopanic[C11]
+
+//@ func CountValues
+//@   ensures[C11] err != nil ==> result0 == 0
+//@   assigns nothing
+//@   nopanic[C11]
+
+// ---- encode.go: header encoding ---------------------------------------------------------
+
+//@ func intsize
+//@   ensures[C11] uint64(size) == rlp_bytelen(i)
+//@   loop 1 invariant[C11] 1 <= size && size <= 8 && i == old(i) >> (8 * uint64(size - 1))
+//@   loop 1 invariant[C11] uint64(size) <= rlp_bytelen(old(i))
+//@   assigns nothing
+//@   nopanic[C11]
+
+//@ func putint
+//@   requires len(b) >= 8
+//@   ensures[C11] uint64(size) == rlp_bytelen(i)
+//@   ensures[C11] rlp_be(arr(b), off(b), uint64(size)) == i
+//@   ensures[C11] i != 0 ==> b[0] != 0
+//@   assigns b
+//@   nopanic[C11]
+
+//@ func headsize
+//@   ensures[C11] uint64(result) == rlp_headlen(size)
+//@   assigns nothing
+//@   nopanic[C11]
+
+// puthead followed by the decoder specification: the header written for (tag class, size) is
+// accepted by the header grammar for every input long enough to hold the payload, and decodes
+// to the same kind and size (round trip at header level; the single-byte rule is the caller's).
+//@ func puthead
+//@   requires len(buf) >= 9
+//@   requires (smalltag == 0x80 && largetag == 0xB7) || (smalltag == 0xC0 && largetag == 0xF7)
+//@   ensures[C11] uint64(result) == rlp_headlen(size)
+//@   ensures[C11] forall L uint64 :: L <= 1099511627776 && size <= 1099511627776 && L >= uint64(result) + size && !(smalltag == 0x80 && size == 1 && buf[1] < 0x80) ==> rlp_ok(arr(buf), off(buf), L) && rlp_tag(arr(buf), off(buf), L) == uint64(result) && rlp_size(arr(buf), off(buf), L) == size
+//@   ensures[C11] forall L uint64 :: (smalltag == 0xC0 ==> rlp_kind(arr(buf), off(buf), L) == 2) && (smalltag == 0x80 ==> rlp_kind(arr(buf), off(buf), L) == 1)
+//@   assigns buf
 //@   nopanic[C11]
